@@ -16,7 +16,7 @@ from ..flow import M1, NEG, Z, P1, POS, NONNEG
 from ..ir import strip, strip_transparent, show, callee_name, const_value, walk, walk_stmts, calls_in, is_unsigned_type
 from ..program import rel, all_exprs, unique_defs
 from ..rules.common import (FactRule, SymRule, GuardRule, run_rule, calls_of, pstr, last_field, Lin, lin, atom_cmp,
-                            origin_names, assigned_fields)
+                            origin_names, assigned_fields, base_term)
 from ..rules import dlrules
 
 REGEX_FIELDS = ('hdr_regex', 'dl_regex', 'end_regex')
@@ -183,7 +183,7 @@ class AllocRule(SymRule):
 
         def nonpos(l):
             # constant <= 0, or only non-positive multiples of non-negative (unsigned) quantities
-            return l.c <= 0 and all(v <= 0 and k.split('@')[0].split('#')[0] in self.unsigned_terms
+            return l.c <= 0 and all(v <= 0 and base_term(k) in self.unsigned_terms
                                     for k, v in l.t.items())
         ok = nonpos(need)
         if not ok:
